@@ -383,4 +383,241 @@ theorem paginate_window (s : State) (data : List SView) (e : Nat) (max : Nat) :
     · simp only [hc]
       exact ⟨hsh, Grown.refl c, fun k _ i => Nat.le_refl _⟩
 
+
+/-- streams of other epoch identifiers are not touched by a `Paginate` call for epoch `e` -/
+theorem paginate_other (s : State) (data : List SView) (e : Nat) (max : Nat) :
+    ∀ fuel it total (c : Caches), Shape data c →
+      ∀ k, k < c.streams.length → (slot c k).epochId ≠ e →
+        slot (paginate data e (rewardsCb s) max fuel it total c).2.2 k = slot c k := by
+  intro fuel
+  induction fuel with
+  | zero => intro it total c _ k _ _; rfl
+  | succ n ih =>
+    intro it total c hsh k hk hne
+    unfold paginate
+    by_cases hc : (decide (total < max) && validAt data e it.1 it.2) = true
+    · simp only [hc, if_true]
+      have hv : validAt data e it.1 it.2 = true := by simp at hc; exact hc.2
+      obtain ⟨hlt, hok, hgi⟩ := (validAt_iff data e it.1 it.2).1 hv
+      have hlen : c.streams.length = data.length := by rw [← hsh.1]; simp
+      have hk1 : it.1 < c.streams.length := by rw [hlen]; exact hlt
+      have hview : data[it.1]? = some (c.streams[it.1]).view := by
+        have := hsh.1
+        subst this
+        simp [hk1]
+      simp only [hview]
+      obtain ⟨d', hd1, _⟩ := rewardsCb_effect s data c hsh it.1 hk1 ((c.streams[it.1]).view.recs.getD it.2 default)
+      obtain ⟨c1, w, hres⟩ : ∃ c1 w, rewardsCb s c (c.streams[it.1]).view ((c.streams[it.1]).view.recs.getD it.2 default) = (c1, w) := ⟨_, _, rfl⟩
+      rw [hres] at hd1 ⊢
+      simp only at hd1 ⊢
+      have hsh1 : Shape data c1 := shape_set data c hsh it.1 hk1 d' c1 hd1
+      have hk' : k < c1.streams.length := by rw [hd1]; simpa using hk
+      -- slot it.1 has epoch e, so k ≠ it.1
+      have hke : k ≠ it.1 := by
+        intro he
+        apply hne
+        rw [he, slot_eq c it.1 hk1]
+        have h1 : data[it.1] = (c.streams[it.1]).view := by
+          have := List.getElem?_eq_getElem hlt
+          rw [hview] at this
+          exact (Option.some.inj this).symm
+        unfold sOk at hok
+        simp only [Bool.and_eq_true, beq_iff_eq] at hok
+        rw [h1] at hok
+        exact hok.2
+      have hs1 : slot c1 k = slot c k := by
+        rw [slot_eq c1 k hk', slot_eq c k hk]
+        have : c1.streams[k] = (c.streams.set it.1 { c.streams[it.1] with distributed := d' })[k]'(by simpa using hk) := by
+          simp only [hd1]
+        rw [this, List.getElem_set_ne (fun x => hke x.symm)]
+      rw [← hs1]
+      exact ih _ _ c1 hsh1 k hk' (by rw [hs1]; exact hne)
+    · simp only [hc]
+      rfl
+
+/-! ### from iterator positions to the stored pointer and back -/
+
+theorem pendId_all_of_lt (p : Pointer) (st : Stream) (h : p.streamId < st.id) (i : Nat) :
+    pendId p st i = sharesOf st st.recs i := by
+  unfold pendId
+  have : st.recs.filter (fun r => ptrLe p st.id r.gauge) = st.recs := by
+    apply List.filter_eq_self.2
+    intro r _
+    unfold ptrLe
+    simp [h]
+  rw [this]
+
+theorem drop_le_pendId (p : Pointer) (st : Stream) (g : Nat) (h1 : p.streamId ≤ st.id)
+    (h2 : ∀ j, g ≤ j → j < st.recs.length → p.gaugeId ≤ (st.recs.map (·.gauge)).getD j 0) (i : Nat) :
+    sharesOf st (st.recs.drop g) i ≤ pendId p st i := by
+  unfold pendId
+  apply sharesOf_sublist
+  have hall : ∀ r ∈ st.recs.drop g, ptrLe p st.id r.gauge = true := by
+    intro r hr
+    obtain ⟨j, hj, he⟩ := List.getElem_of_mem hr
+    rw [List.getElem_drop] at he
+    have hj' : g + j < st.recs.length := by simp at hj; omega
+    have := h2 (g + j) (by omega) hj'
+    have hg : (st.recs.map (·.gauge)).getD (g + j) 0 = r.gauge := by
+      simp [List.getD_eq_getElem?_getD, hj', he]
+    rw [hg] at this
+    unfold ptrLe
+    simp only [Bool.or_eq_true, decide_eq_true_eq, Bool.and_eq_true, beq_iff_eq]
+    by_cases hh : p.streamId < st.id
+    · exact Or.inl hh
+    · exact Or.inr ⟨by omega, this⟩
+  have : st.recs.drop g = (st.recs.drop g).filter (fun r => ptrLe p st.id r.gauge) := (List.filter_eq_self.2 hall).symm
+  rw [this]
+  exact (List.drop_sublist g st.recs).filter _
+
+theorem pendId_le_drop (p : Pointer) (st : Stream) (g : Nat) (h1 : p.streamId = st.id)
+    (h2 : ∀ j, j < g → j < st.recs.length → (st.recs.map (·.gauge)).getD j 0 < p.gaugeId) (i : Nat) :
+    pendId p st i ≤ sharesOf st (st.recs.drop g) i := by
+  unfold pendId
+  apply sharesOf_sublist
+  have hsplit : st.recs = st.recs.take g ++ st.recs.drop g := (List.take_append_drop g st.recs).symm
+  have htake : (st.recs.take g).filter (fun r => ptrLe p st.id r.gauge) = [] := by
+    apply List.filter_eq_nil_iff.2
+    intro r hr
+    obtain ⟨j, hj, he⟩ := List.getElem_of_mem hr
+    rw [List.getElem_take] at he
+    have hj1 : j < g := by simp at hj; omega
+    have hj2 : j < st.recs.length := by simp at hj; omega
+    have := h2 j hj1 hj2
+    have hg : (st.recs.map (·.gauge)).getD j 0 = r.gauge := by
+      simp [List.getD_eq_getElem?_getD, hj2, he]
+    rw [hg] at this
+    unfold ptrLe
+    simp only [Bool.or_eq_true, decide_eq_true_eq, Bool.and_eq_true, beq_iff_eq, not_or, not_and]
+    exact ⟨by omega, fun _ => by omega⟩
+  have : st.recs.filter (fun r => ptrLe p st.id r.gauge) = (st.recs.drop g).filter (fun r => ptrLe p st.id r.gauge) := by
+    conv => lhs; rw [hsplit]
+    rw [List.filter_append, htake, List.nil_append]
+  rw [this]
+  exact List.filter_sublist
+
+theorem pendId_zero_of_gt (p : Pointer) (st : Stream) (h : st.id < p.streamId) (i : Nat) : pendId p st i = 0 := by
+  unfold pendId
+  have : st.recs.filter (fun r => ptrLe p st.id r.gauge) = [] := by
+    apply List.filter_eq_nil_iff.2
+    intro r _
+    unfold ptrLe
+    simp only [Bool.or_eq_true, decide_eq_true_eq, Bool.and_eq_true, beq_iff_eq, not_or, not_and]
+    exact ⟨by omega, fun he => by omega⟩
+  rw [this]; simp [sharesOf]
+
+
+theorem ids_getD (data : List SView) (k : Nat) (hk : k < data.length) : (data.map (·.id)).getD k 0 = data[k].id := by
+  simp [List.getD_eq_getElem?_getD, hk]
+
+theorem gids_getD (rs : List Rec) (j : Nat) (hj : j < rs.length) : (rs.map (·.gauge)).getD j 0 = rs[j].gauge := by
+  simp [List.getD_eq_getElem?_getD, hj]
+
+/-- what is ahead of the iterator built from pointer `p` is at most what is pending after `p` -/
+theorem newIter_pend_le (data : List SView) (e : Nat) (p : Pointer) (hs : SortedData data) (k : Nat) (hk : k < data.length)
+    (st : Stream) (hid : st.id = data[k].id) (hrec : st.recs = data[k].recs) (i : Nat) :
+    posPend st (newIter data e p) k i ≤ pendId p st i := by
+  obtain ⟨_, lo, hi⟩ := binSearch_spec (data.map (·.id)) p.streamId hs.ids
+  have hlenm : (data.map (·.id)).length = data.length := by simp
+  have hidk : p.streamId ≤ st.id ∨ k < binSearch (data.map (·.id)) p.streamId := by
+    by_cases h : binSearch (data.map (·.id)) p.streamId ≤ k
+    · left; have := hi k h (by rw [hlenm]; exact hk); rw [ids_getD data k hk] at this; rw [hid]; exact this
+    · right; omega
+  -- if the bisection index is below k, the stream is entirely after the pointer
+  have hall : ∀ si, binSearch (data.map (·.id)) p.streamId ≤ si → si < k → pendId p st i = sharesOf st st.recs i := by
+    intro si h1 h2
+    apply pendId_all_of_lt
+    have a := hi si h1 (by rw [hlenm]; omega)
+    have b := hs.ids si k h2 (by rw [hlenm]; exact hk)
+    rw [ids_getD data k hk] at b
+    rw [hid]; omega
+  unfold newIter
+  cases hd : data[binSearch (data.map (·.id)) p.streamId]? with
+  | none =>
+    simp only [hd]
+    have : data.length ≤ binSearch (data.map (·.id)) p.streamId := by
+      rcases Nat.lt_or_ge (binSearch (data.map (·.id)) p.streamId) data.length with h | h
+      · rw [List.getElem?_eq_getElem h] at hd; simp at hd
+      · exact h
+    unfold posPend
+    have h1 : ¬ binSearch (data.map (·.id)) p.streamId < k := by omega
+    have h2 : ¬ binSearch (data.map (·.id)) p.streamId = k := by omega
+    simp [h1, h2]
+  | some sv =>
+    simp only [hd]
+    obtain ⟨hsi, hsv⟩ := List.getElem?_eq_some_iff.1 hd
+    by_cases hv : validAt data e (binSearch (data.map (·.id)) p.streamId) (binSearch (sv.recs.map (·.gauge)) p.gaugeId) = true
+    · rw [if_pos hv]
+      unfold posPend
+      simp only
+      by_cases h1 : binSearch (data.map (·.id)) p.streamId < k
+      · simp only [h1, if_true]
+        rw [hall _ (Nat.le_refl _) h1]; exact Nat.le_refl _
+      · by_cases h2 : binSearch (data.map (·.id)) p.streamId = k
+        · simp only [h1, h2, if_false, if_true]
+          have hsvk : sv = data[k] := by rw [← hsv]; simp [h2]
+          have hmem : data[k] ∈ data := List.getElem_mem hk
+          obtain ⟨_, _, ghi⟩ := binSearch_spec (data[k].recs.map (·.gauge)) p.gaugeId (hs.recs _ hmem)
+          rw [hsvk]
+          simp only [Nat.lt_irrefl, if_false]
+          apply drop_le_pendId
+          · rcases hidk with h | h
+            · exact h
+            · omega
+          · intro j hj1 hj2
+            rw [hrec] at hj2 ⊢
+            exact ghi j hj1 (by simpa using hj2)
+        · simp [h1, h2]
+    · rw [if_neg hv]
+      obtain ⟨f1, f2, _, _⟩ := findNext_prop data e (binSearch (data.map (·.id)) p.streamId)
+      unfold posPend
+      rw [f2]
+      by_cases h1 : (findNextStream data e (binSearch (data.map (·.id)) p.streamId)).1 < k
+      · simp only [h1, if_true]
+        rw [hall _ (Nat.le_refl _) (by omega)]; exact Nat.le_refl _
+      · by_cases h2 : (findNextStream data e (binSearch (data.map (·.id)) p.streamId)).1 = k
+        · simp only [h2, Nat.lt_irrefl, if_false, if_true, List.drop_zero]
+          rw [hall _ (Nat.le_refl _) (by omega)]; exact Nat.le_refl _
+        · simp [h1, h2]
+
+/-- what is pending after the saved pointer is at most what is ahead of the iterator it was saved from -/
+theorem ptrOf_pend_le (data : List SView) (e : Nat) (it : Nat × Nat) (hs : SortedData data) (k : Nat) (hk : k < data.length)
+    (st : Stream) (hid : st.id = data[k].id) (hrec : st.recs = data[k].recs) (i : Nat) :
+    pendId (ptrOf data e it) st i ≤ posPend st it k i := by
+  have hlenm : (data.map (·.id)).length = data.length := by simp
+  unfold ptrOf
+  by_cases hv : validAt data e it.1 it.2 = true
+  · obtain ⟨hlt, _, hgi⟩ := (validAt_iff data e it.1 it.2).1 hv
+    simp only [hv, if_true, List.getElem?_eq_getElem hlt]
+    unfold posPend
+    by_cases h1 : it.1 < k
+    · simp only [h1, if_true]; exact pendId_le_all _ _ _
+    · by_cases h2 : it.1 = k
+      · have hsk : data[it.1] = data[k] := by simp [h2]
+        simp only [h2, Nat.lt_irrefl, if_false, if_true]
+        have hmem : data[k] ∈ data := List.getElem_mem hk
+        apply pendId_le_drop
+        · simp only; rw [hid]
+        · intro j hj1 hj2
+          simp only
+          have hgk : it.2 < data[k].recs.length := by rw [← hsk]; exact hgi
+          have := (hs.recs _ hmem) j it.2 hj1 (by simpa using hgk)
+          rw [hrec]
+          have e2 : (data[k].recs.getD it.2 default).gauge = (data[k].recs.map (·.gauge)).getD it.2 0 := by
+            simp [List.getD_eq_getElem?_getD, hgk]
+          rw [e2]; exact this
+      · simp only [h1, h2, if_false]
+        have : pendId ⟨data[it.1].id, (data[it.1].recs.getD it.2 default).gauge⟩ st i = 0 := by
+          apply pendId_zero_of_gt
+          have := hs.ids k it.1 (by omega) (by rw [hlenm]; exact hlt)
+          rw [ids_getD data k hk, ids_getD data it.1 hlt] at this
+          simp only; rw [hid]; exact this
+        rw [this]; exact Nat.le_refl _
+  · have hv' : validAt data e it.1 it.2 = false := by simpa using hv
+    simp only [hv', Bool.false_eq_true, if_false]
+    have := hs.bound k hk
+    rw [ids_getD data k hk] at this
+    rw [pendId_last st (by rw [hid]; exact this) i]
+    exact Nat.zero_le _
+
 end DymVerif.Incent
